@@ -1,4 +1,4 @@
-(* C06 — evaluation of harness observations of the literal gate against the two models
+(* C06 — evaluation of harness observations of the literal gate against the model
    (vm_compute inside coqc, driven by checks/c06.py). *)
 From Coq Require Import List ZArith Bool NArith.
 Import ListNotations.
@@ -11,30 +11,23 @@ Open Scope Z_scope.
    was only lexed, not parsed) *)
 Record lcase := mkL { l_prev : prev; l_digits : list Z; l_err : bool; l_merged : bool; l_value : option Z }.
 
-Definition agrees (f : prev -> list Z -> outcome) (c : lcase) : bool :=
-  let o := f (l_prev c) (l_digits c) in
+Definition agrees (c : lcase) : bool :=
+  let o := process_raw (l_prev c) (l_digits c) in
   Bool.eqb (o_error o) (l_err c) && Bool.eqb (o_merged o) (l_merged c) &&
   match l_value c with
   | None => true
-  | Some v => v =? lit_value_of f (l_prev c) (l_digits c)
+  | Some v => v =? lit_value (l_prev c) (l_digits c)
   end.
 
-Fixpoint bad_from (f : prev -> list Z -> outcome) (cs : list lcase) (i : N) : list N :=
+(* indices of the observations that disagree with the model *)
+Fixpoint bad_from (cs : list lcase) (i : N) : list N :=
   match cs with
   | [] => []
-  | c :: r => if agrees f c then bad_from f r (i + 1)%N else i :: bad_from f r (i + 1)%N
+  | c :: r => if agrees c then bad_from r (i + 1)%N else i :: bad_from r (i + 1)%N
   end.
+Definition lbad (cs : list lcase) : list N := bad_from cs 0%N.
 
-(* indices of the observations that disagree with the pinned model / with the patched model,
-   and indices of the observations in the known class *)
-Definition lbad (cs : list lcase) : list N * list N * list N :=
-  (bad_from process_raw cs 0%N, bad_from process_raw_patched cs 0%N,
-   (fix known (cs : list lcase) (i : N) : list N :=
-      match cs with
-      | [] => []
-      | c :: r => if Known_C06_lit (l_prev c) (l_digits c) then i :: known r (i + 1)%N else known r (i + 1)%N
-      end) cs 0%N).
-
-(* the model's full answer for one input (for the disagreement report) *)
+(* the model's full answer for one input (for the disagreement report):
+   outcome, value, and whether the OLD gate would have answered the same *)
 Definition lmodel (p : prev) (ds : list Z) :=
-  (process_raw p ds, lit_value p ds, process_raw_patched p ds, lit_value_patched p ds).
+  (process_raw p ds, lit_value p ds, negb (Known_C06_lit p ds)).
